@@ -108,8 +108,9 @@ def finish(ctx, level="other"):
     """Write evidence + reports, print verdict lines, return exit code."""
     prop = ctx.prop
     known = load_known().get(prop, {})
-    os.makedirs(os.path.join(VERIF, "evidence"), exist_ok=True)
-    repdir = os.path.join(VERIF, "reports", prop)
+    evdir = os.environ.get("RR_EVIDENCE_DIR") or os.path.join(VERIF, "evidence")
+    os.makedirs(evdir, exist_ok=True)
+    repdir = os.path.join(os.environ.get("RR_REPORT_DIR") or os.path.join(VERIF, "reports"), prop)
     os.makedirs(repdir, exist_ok=True)
     new = []
     knownhits = []
@@ -167,7 +168,7 @@ def finish(ctx, level="other"):
         wall_s=round(time.time() - ctx.t0, 2),
         violations=len(new),
     )
-    with open(os.path.join(VERIF, "evidence", prop + ".json"), "w") as f:
+    with open(os.path.join(evdir, prop + ".json"), "w") as f:
         json.dump(ev, f, indent=1, default=str)
     print("%s %s: %d rule instances (%d distinct), %d known findings, %d violations, %.1fs" % (
         prop, ctx.tier, len(insts), distinct, len(knownhits), len(new), time.time() - ctx.t0))
